@@ -3,9 +3,13 @@
 //! and writes, per property, `<out>/<prop>.cases` (input lines for the Lean model driver),
 //! `<out>/<prop>.impl` (the implementation's canonical answers) and `<out>/<prop>.stats`.
 mod canon;
+mod probes;
 mod props;
 mod rng;
+mod ser;
 mod sx;
+mod types;
+mod vals;
 
 use std::collections::BTreeMap;
 use std::io::Write;
@@ -75,6 +79,7 @@ fn main() {
     let mut seed = 1u64;
     let mut n = 1000usize;
     let mut out_dir = String::from("out");
+    let mut exhaustive: Option<i64> = None;
     let mut i = 2;
     while i < args.len() {
         match args[i].as_str() {
@@ -84,6 +89,10 @@ fn main() {
             }
             "--n" => {
                 n = args[i + 1].parse().unwrap();
+                i += 2;
+            }
+            "--exhaustive" => {
+                exhaustive = Some(args[i + 1].parse().unwrap());
                 i += 2;
             }
             "--out" => {
@@ -99,6 +108,9 @@ fn main() {
     match prop.as_str() {
         "c04" => props::c04::run(seed, n, &mut out),
         "c05" => props::c05::run(seed, n, &mut out),
+        "c11" => props::fm::run_c11(seed, n, &mut out, exhaustive),
+        "c12" => props::fm::run_c12(seed, n, &mut out),
+        "c15b" => props::fm::run_c15b(seed, n, &mut out),
         _ => {
             eprintln!("unknown property {}", prop);
             std::process::exit(2);
